@@ -816,6 +816,18 @@ func lockingHistory(r *Rng, st *Stats, mask, focus string, blocks int, ci int) (
 					q.Claims = append(q.Claims, &goattypes.ClaimRequest{Id: claimID, Validator: vals[vi].Addr, Recipient: rc})
 					clC = append(clC, cTuple(cN(claimID)+"%N", cNb(vals[vi].AddrN), cNb(new(big.Int).SetBytes(rc.Bytes()))))
 					claimID++
+					// further claims in the same list: the same validator again, or another one
+					for r.Chance(30) {
+						vj := vi
+						if r.Chance(35) {
+							vj = r.Intn(len(vals))
+						}
+						rc2 := common.BytesToAddress(r.Bytes(20))
+						q.Claims = append(q.Claims, &goattypes.ClaimRequest{Id: claimID, Validator: vals[vj].Addr, Recipient: rc2})
+						clC = append(clC, cTuple(cN(claimID)+"%N", cNb(vals[vj].AddrN), cNb(new(big.Int).SetBytes(rc2.Bytes()))))
+						claimID++
+						st.Count(fmt.Sprintf("claims-in-one-list:same-validator=%v", vj == vi))
+					}
 				}
 			}
 			args["locks"], args["unlocks"], args["creates"], args["weights"], args["thresholds"] = lr, ur, len(q.Creates), len(q.UpdateWeights), len(q.UpdateThresholds)
